@@ -227,6 +227,31 @@ def obligations(cx):
             cx.ob("%s.iteration%d.frame" % (tag, pi), [], blit(not r.ex.ext_writes), kind='frame', function='fit_vle')
         okp = len(post) == 1 and isinstance(post[0], ast.Return) and 'best_fit' in ast.unparse(post[0].value)
         cx.ob(tag + ".returns-the-tracked-best", [], blit(okp), kind='scan', function='fit_vle')
+    # the VLE objective itself: root-mean-square deviation of the UNIQUAC partial pressures from the measured ones on the supplied points
+    cx.under_contract('uniquac_fitting.py:objective')
+    from ..contracts import flux as CFX, thermo
+    pts = PList([Obj('VLEPoint', dict(composition=W.composition(src, var('vx%d' % i), 'molar'), pressures=(var('vp1_%d' % i), var('vp2_%d' % i)), temperature=var('vT%d' % i)), owner='external') for i in range(2)], owner='external')
+    comps = PList([W.component(src, '1'), W.component(src, '2')], owner='external')
+    vd = Obj('VLEPoints', dict(components=comps, data=pts), owner='external', tag='vle data')
+    prm = PList([var('u%d' % i) for i in range(5)], owner='external')
+    fo2 = src.find('uniquac_fitting.py:objective')
+    psv = cx.explore(lambda ex: ex.call_function(fo2, [], dict(data=vd, params=prm), inline=True), contracts={'get_partial_pressures': CFX.gpp_contract})
+    for pi, r in enumerate(returns(psv)):
+        sse = lift(0)
+        ok = True
+        mixs = [c[1]['mixture'] for c in r.ex.calls if c[0] == 'get_partial_pressures']
+        okm = len(mixs) == 4 and all(m.f['first_component'] is comps.items[0] and m.f['second_component'] is comps.items[1] and m.f['nrtl_params'] is None for m in mixs)
+        cx.ob("vle-objective.path%d.mixture-built-from-the-data-components-and-the-parameters" % pi, [], blit(okm), kind='paths', function='uniquac_fitting.py:objective')
+        if okm:
+            up = mixs[0].f['uniquac_params']
+            cx.ob("vle-objective.path%d.parameters" % pi, r.pc, band(eq(up.f['alpha_12'], var('u0')), eq(up.f['alpha_21'], var('u1')), eq(up.f['beta_12'], var('u2')), eq(up.f['beta_21'], var('u3'))), function='uniquac_fitting.py:objective')
+            for i in range(2):
+                pp_ = thermo.gpp_apps(var('vT%d' % i), mixs[0], pts.items[i].f['composition'], 'UNIQUAC')
+                sse = sse + power(pp_[0] - var('vp1_%d' % i), 2) + power(pp_[1] - var('vp2_%d' % i), 2)
+            cx.ob("vle-objective.path%d.rmse" % pi, r.pc, eq(r.value, app('sqrt', sse / 2)), function='uniquac_fitting.py:objective',
+                  statement="VLE objective = sqrt(mean over the supplied points of the squared deviations of both UNIQUAC partial pressures)")
+        cx.ob("vle-objective.path%d.frame" % pi, [], blit(not r.ex.ext_writes), kind='frame', function='uniquac_fitting.py:objective')
+    cx.ob("vle-objective.paths", [], blit(len(returns(psv)) >= 1), kind='paths', function='uniquac_fitting.py:objective')
     # ------------------------------------------------------------------ (d) PervaporationFunction against the closed form, all shapes n, m <= 5
     for q in ('PervaporationFunction.from_array', 'PervaporationFunction.__call__', 'PervaporationFunction.__mul__'): cx.under_contract(q)
     x, t, c = var('xq'), var('tq'), var('cm')
